@@ -177,6 +177,11 @@ class _Walk:
                     e = strip(st.expected)
                     loc = m.locate(e.kids[0]) if e is not None and e.k == "UnaryOperator" and e.op == "&" else None
                     if loc is None:
+                        # the address travelled through a pointer (a transition helper taking `int* expected`)
+                        base = m.pointee(st.expected)
+                        if base is not None:
+                            loc = (base[0], base[1], 32, "int")
+                    if loc is None:
                         raise Unevaluable("expected operand of the compare-exchange is not a local")
                     seen = walk.script[min(walk.idx, len(walk.script) - 1)]
                     walk.idx += 1
